@@ -248,4 +248,58 @@ example :
 example : (Form.weekdayAt 0 ⟨13, 0, 0, 0, none⟩).Valid ∧ (Form.weekdayAt 0 ⟨13, 0, 0, 0, none⟩).Plain := by
   simp [Form.Valid, Form.Plain, TimeInit.InRange]
 
+/-! ### the creation time the boundaries are counted from (`_ctime_functions.py`) -/
+
+/-- `creation_time_source`: on Linux the creation time of an existing file is the persisted
+`user.loguru_crtime` value when there is one and the modification time otherwise – with or without
+xattr support; in particular never `st_ctime`/`st_atime` (regenerated field names) -/
+theorem creation_time_source (m : FileMeta) :
+    getCtime .linuxXattr m = specCreation m ∧ (m.crtime = none → getCtime .noXattr m = specCreation m) := by
+  constructor
+  · unfold getCtime specCreation ctimeLinuxFallback; cases m.crtime <;> rfl
+  · intro h; unfold getCtime specCreation ctimeNoXattr; rw [h]
+
+/-- metadata changes (chmod, mv, hard link, utime's side effect on the inode-change time, reads)
+do not move the boundaries -/
+theorem creation_time_ignores_inode_change (m : FileMeta) (c a : Int) :
+    getCtime .linuxXattr { m with st := { m.st with st_ctime := c, st_atime := a } } = getCtime .linuxXattr m ∧
+    getCtime .noXattr { m with st := { m.st with st_ctime := c, st_atime := a } } = getCtime .noXattr m := by
+  constructor
+  · unfold getCtime ctimeLinuxFallback; cases m.crtime <;> rfl
+  · unfold getCtime ctimeNoXattr; rfl
+
+/-- `set_ctime` then `get_ctime` returns what was stored (same attribute name on both sides), and
+storing what `get_ctime` returned – what `RotationTime.__call__` does on first use – changes nothing
+that `get_ctime` sees; without attribute support `set_ctime` is a no-op -/
+theorem set_then_get (m : FileMeta) (ts : Int) :
+    ctimeSetAttr = ctimeGetAttr ∧
+    getCtime .linuxXattr (setCtime .linuxXattr true m ts) = ts ∧
+    getCtime .linuxXattr (setCtime .linuxXattr true m (getCtime .linuxXattr m)) = getCtime .linuxXattr m ∧
+    setCtime .linuxXattr false m ts = m ∧ setCtime .noXattr true m ts = m := by
+  have h : ctimeSetAttr = ctimeGetAttr := by decide
+  refine ⟨h, ?_, ?_, ?_, ?_⟩
+  · simp [setCtime, getCtime, h]
+  · simp [setCtime, getCtime, h]
+  · simp [setCtime]
+  · simp [setCtime]
+
+/-- `restart_counts_from_file_creation`: a sink that starts on an existing file (any stat times, with
+or without the persisted attribute) keeps, over every call history, `_limit` = least boundary of
+B(σ, creation of that file) after the latest instant seen – the main invariant with the creation
+instant resolved through `get_ctime` -/
+theorem restart_counts_from_file_creation (F : Form) (ok : StepOK F) (m : FileMeta) (off : Int)
+    (x : CallIn) (xs : List CallIn)
+    (hx : ∀ y ∈ x :: xs, y.ctime = getCtime .linuxXattr m ∧ y.stamp.off = off) :
+    ∃ l, (timeRun F.cfg none (x :: xs)).2 = some l ∧
+      IsNext (F.B (specCreation m + F.frame off))
+        (latest (F.frame off) (specCreation m + F.frame off) (x :: xs)) l := by
+  rw [← (creation_time_source m).1]
+  exact limit_is_next_boundary F ok (getCtime .linuxXattr m) off x xs hx
+
+/-- refuting witness for the shape "fall back on st_ctime": a file last written at instant 0 whose
+inode changed at 7 (chmod) would be dated 7 -/
+theorem inode_change_time_is_not_creation :
+    let m : FileMeta := { st := { st_mtime := 0, st_ctime := 7, st_atime := 9, st_birthtime := 0 }, crtime := none }
+    m.st.st_ctime ≠ specCreation m ∧ getCtime .linuxXattr m = 0 ∧ getCtime .noXattr m = 0 := by decide
+
 end C07
